@@ -1,6 +1,7 @@
 #!/bin/bash
 # tools_runops.sh <engine> <ops-file>: run one ops file on implementation and model, show differing lines (or all with -a)
 e=$1; f=$2
+/verif/build_harness.sh >/dev/null 2>&1   # never use a stale binary (a seeded run may have left one)
 cd /verif/build
 VERIF_ENGINE=$e VERIF_MODE=run VERIF_OPS=$f VERIF_OUT=tmp/ro.impl TMPDIR=/verif/build/tmp VERIF_CASE_TIMEOUT=20 timeout 300 ./harness.test -test.run '^TestVerif$' >/dev/null 2>&1
 ../lean/.lake/build/bin/kpmodel $e < $f > tmp/ro.model
